@@ -1,17 +1,74 @@
+// Command tchk decides the structural clauses of one property of
+// uber/tchannel-go from /repo's current source (static analysis only).
 package main
 
 import (
+	"flag"
 	"fmt"
+	"os"
+	"runtime/debug"
+	"sort"
 
-	"golang.org/x/tools/go/callgraph/vta"
-	"golang.org/x/tools/go/packages"
-	"golang.org/x/tools/go/ssa/ssautil"
-	"golang.org/x/tools/go/cfg"
+	"verif/sa/core"
+	"verif/sa/rules"
 )
 
-var _ = vta.CallGraph
-var _ = packages.Load
-var _ = ssautil.AllFunctions
-var _ = cfg.New
+func main() {
+	prop := flag.String("property", "", "property id (C01..C20)")
+	tier := flag.String("tier", "quick", "quick|thorough")
+	noEv := flag.Bool("no-evidence", false, "do not write the evidence file (used by self-tests)")
+	list := flag.Bool("list", false, "list properties with rules")
+	goarch := flag.String("goarch", "", "GOARCH override")
+	goos := flag.String("goos", "", "GOOS override")
+	flag.Parse()
+	if *list {
+		var ids []string
+		for id := range rules.Registry {
+			ids = append(ids, id)
+		}
+		sort.Strings(ids)
+		for _, id := range ids {
+			fmt.Println(id)
+		}
+		return
+	}
+	if t := os.Getenv("VERIF_TIER"); t != "" && !isFlagSet("tier") {
+		*tier = t
+	}
+	run, ok := rules.Registry[*prop]
+	if !ok {
+		fmt.Printf("ERROR unknown property %q\n", *prop)
+		os.Exit(2)
+	}
+	os.Exit(runOne(*prop, *tier, *noEv, *goarch, *goos, run))
+}
 
-func main() { fmt.Println("ok") }
+func isFlagSet(name string) bool {
+	set := false
+	flag.Visit(func(f *flag.Flag) {
+		if f.Name == name {
+			set = true
+		}
+	})
+	return set
+}
+
+func runOne(prop, tier string, noEv bool, goarch, goos string, run rules.RuleFunc) (code int) {
+	rep := core.NewReport(prop, tier)
+	defer func() {
+		if e := recover(); e != nil {
+			fmt.Printf("ERROR analyser panic (cannot decide): %v\n%s\n", e, debug.Stack())
+			code = 2
+		}
+	}()
+	p, err := core.Load(core.LoadConfig{GOARCH: goarch, GOOS: goos})
+	if err != nil {
+		fmt.Printf("ERROR load: %v\n", err)
+		return 2
+	}
+	run(p, rep)
+	if tier == "thorough" {
+		rules.Thorough(prop, p, rep)
+	}
+	return rep.Finish(p, noEv)
+}
